@@ -338,6 +338,19 @@ async def run_connections(st, uni, nconns, schedule, sid_map, rate_limiter=None,
     conns = {}
     main = asyncio.current_task()
     rl = rate_limiter or NullRateLimiter()
+    rec.limiter_calls = []
+    if rate_limiter is not None:
+        orig_limited = rl.is_limited
+
+        def is_limited(addr, message):
+            res = bool(orig_limited(addr, message))
+            c = rec.conn_of_addr.get(addr, -1)
+            rec.limiter_calls.append((addr, message[0], res, rl._timestamp(), _limiter_state(rl)))
+            if res:
+                rec.emit(a="Limited", c=c, cmd=message[0])
+            return res
+
+        rl.is_limited = is_limited
 
     async def handler(cn):
         try:
@@ -441,7 +454,18 @@ async def run_connections(st, uni, nconns, schedule, sid_map, rate_limiter=None,
     finally:
         rec.uninstall()
         web.asyncio = real_asyncio
+    rec.log.append({"a": "LimiterCalls", "calls": rec.limiter_calls}) if rec.limiter_calls else None
     return rec.log, {c: {"result": cn.result, "close_code": cn.closed_code} for c, cn in conns.items()}, rec.errors
+
+
+def _limiter_state(rl):
+    import ipaddress
+
+    out = {}
+    for key, cmds in getattr(rl, "recent_commands", {}).items():
+        name = key if key == "global" else str(ipaddress.ip_address(key))
+        out[name] = {cmd: [int(x) for x in dq] for cmd, dq in cmds.items()}
+    return out
 
 
 def _queues_of(rec):
